@@ -300,9 +300,11 @@ def r3_stored_value(report, repo, only_cache=False, cache_rule='C10-R3'):
     cparam = lib.param_names(f.node)[1]
     kv = lib.value_exprs(g, s, t.slice) if isinstance(t.slice, ast.Name) \
         else [t.slice]
+    cnames = lib.copy_class(f, cparam)  # the parameter and plain copies of it
     okk = bool(kv) and all(
-        core.is_name(x, cparam) or (isinstance(x, ast.Tuple) and len(
-            x.elts) == 1 and core.is_name(x.elts[0], cparam)) for x in kv)
+        (isinstance(x, ast.Name) and x.id in cnames) or (
+            isinstance(x, ast.Tuple) and len(x.elts) == 1 and isinstance(
+                x.elts[0], ast.Name) and x.elts[0].id in cnames) for x in kv)
     report.check(okk, rule, f.qualname,
                  'store-key', s.ast, 'value stored under its coordinates')
   if not only_cache:
@@ -685,10 +687,18 @@ def r7_measurements_pass(report, repo, rule='C06-R7'):
           'self.measurements.items')
   report.check(ok, rule, f.qualname, 'all-measurements', f.node,
                'one loop over every measurement of the phase')
+  if repo.has_func(TS, 'PhaseState._measurements_marginal'):
+    m = repo.func(TS, 'PhaseState._measurements_marginal')
+    qm = lib.quantifier_loops(lib.cfg(m))
+    ok = len(qm) == 1 and qm[0]['kind'] == 'any' and len(
+        qm[0]['conds']) == 1 and qm[0]['conds'][0][1] is True and dotted(
+            qm[0]['conds'][0][0]) == (dotted(qm[0]['target']) or '') + \
+        '.marginal'
+    report.check(ok, rule, m.qualname, 'any-marginal', m.node,
+                 '_measurements_marginal = any(meas.marginal ...)')
 
 
-def r8_order(report, repo):
-  rule = 'C06-R8'
+def r8_order(report, repo, rule='C06-R8'):
   report.rule(rule, 'T-ORDER: Collection.__setitem__: set -> notify_value_set; '
               'notify_value_set: dimensioned -> PARTIALLY_SET else validate(), '
               'then the notification callback')
@@ -776,3 +786,7 @@ def run(report, repo):
   report.guard(extra4.with_args_keeps_validators, report, repo, 'C06-R10')
   report.guard(r3_stored_value, report, repo, only_cache=True, cache_rule='C06-R3c')
   report.guard(c02.r7_diagnoses, report, repo, rule='C06-R11')
+  from sa.rules import extra5  # pylint: disable=g-import-not-at-top
+  report.guard(extra5.finalize_examines_every_measurement, report, repo, 'C06-R9')
+  from sa.rules import extra5 as _e5  # pylint: disable=g-import-not-at-top
+  report.guard(_e5.cached_value_refreshed_when_set, report, repo, 'C06-R10')
